@@ -22,11 +22,20 @@
 //
 // Rules for harnesses: jobs must catch all exceptions and must not block; job bodies must be deterministic; reset the
 // observation slots to really fresh objects before every execution (see C10_preempt.cc: fresh()).
+//
+// First calls ("cold start"): lazily initialised state (a table filled on first use, a cache keyed by the first argument
+// seen) is only vulnerable while the first calls of a process overlap.  explore_cold()/run_forked() execute every schedule
+// in a freshly forked child of a parent that has never called the code under test, so each schedule starts cold.  The
+// compiler-generated guards of function-local statics are modelled (a job that reaches a static another job is
+// initialising waits for it, as between real threads), so thread-safe "magic statics" are not reported.
 #pragma once
 #include <stdint.h>
 #include <stdio.h>
 #include <stdlib.h>
+#include <errno.h>
+#include <string.h>
 #include <sys/mman.h>
+#include <sys/wait.h>
 #include <unistd.h>
 
 #include <algorithm>
@@ -93,6 +102,7 @@ struct Fib {
   size_t stack_size = 0;
   void* fake = nullptr;
   bool done = true;
+  const void* blocked_on = nullptr;  // guard of a function-local static another job is initialising
 };
 inline Fib g_fib[MAXT];
 inline void* g_main_sp = nullptr;
@@ -112,12 +122,32 @@ inline int g_switches = 0;
 inline const std::vector<std::function<void()>>* g_jobs = nullptr;
 
 // who runs next, with what budget; g_n = the controller (all jobs finished)
+// Function-local statics: the compiler brackets their initialisation with __cxa_guard_acquire/release.  A job preempted
+// inside such an initialiser holds the guard; another job reaching the same static must WAIT (that is what libstdc++ does
+// between real threads).  The guard functions are defined below (VP_IMPLEMENT) and model exactly that: the waiting job is
+// disabled until the guard is released, it is not a scheduling choice and not a preemption.
+struct GuardRec { const void* g; int owner; };
+inline GuardRec g_guards[32];
+inline int g_nguards = 0;
+VP_NOINSTR inline int guard_owner(const void* g) {
+  for (int i = 0; i < g_nguards; i++)
+    if (g_guards[i].g == g) return g_guards[i].owner;
+  return -2;
+}
+VP_NOINSTR inline bool runnable(int t) {
+  if (g_fib[t].done) return false;
+  if (g_fib[t].blocked_on) {
+    if (guard_owner(g_fib[t].blocked_on) != -2) return false;
+    g_fib[t].blocked_on = nullptr;
+  }
+  return true;
+}
 VP_NOINSTR inline int pick_next(int me) {
   while (g_segs && g_seg_idx < g_segs->size()) {
     const Seg& s = (*g_segs)[g_seg_idx];
     g_cur_seg = static_cast<int>(g_seg_idx);
     g_seg_idx++;
-    if (s.t >= 0 && s.t < g_n && !g_fib[s.t].done && s.n > 0) {
+    if (s.t >= 0 && s.t < g_n && s.n > 0 && runnable(s.t)) {
       g_budget = s.n;
       return s.t;
     }
@@ -125,8 +155,8 @@ VP_NOINSTR inline int pick_next(int me) {
   g_cur_seg = -1;
   g_budget = -1;
   for (int t = 0; t < g_n; t++)
-    if (t != me && !g_fib[t].done) return t;
-  if (me >= 0 && me < g_n && !g_fib[me].done) return me;
+    if (t != me && runnable(t)) return t;
+  if (me >= 0 && me < g_n && runnable(me)) return me;
   return g_n;
 }
 // switch from the current context (job `from`, or -1 = controller) to `to` (job id, or g_n = controller)
@@ -203,6 +233,7 @@ VP_NOINSTR inline void prepare(int t) {
   f.sp = sp;
   f.fake = nullptr;
   f.done = false;
+  f.blocked_on = nullptr;
 }
 }  // namespace detail
 
@@ -219,6 +250,7 @@ class Arena {
     g_seg_idx = 0;
     g_cur_seg = -1;
     g_switches = 0;
+    g_nguards = 0;
     for (int t = 0; t < MAXT; t++) {
       g_points[t] = 0;
       g_fib[t].done = true;
@@ -313,6 +345,68 @@ VP_NOINSTR void explore(int nthreads, int bound, Exec&& exec, Check&& check, Sta
   rec(0);
 }
 
+// One execution in a freshly forked child (cold start).  `body` runs in the child: it must execute the schedule and return
+// (Result, payload) where payload is whatever the parent needs to judge the execution.  status != 0: the child died.
+struct Forked {
+  Result res;
+  std::string payload;
+  int status = 0;  // wait status; 0 = exited normally with code 0
+  bool ok = false;
+};
+template <class Body>
+VP_NOINSTR Forked run_forked(Body&& body, unsigned timeout_s = 30) {
+  Forked f;
+  int fds[2];
+  if (pipe(fds) != 0) { perror("vp: pipe"); _exit(3); }
+  fflush(stdout);
+  fflush(stderr);
+  pid_t pid = fork();
+  if (pid < 0) { perror("vp: fork"); _exit(3); }
+  if (pid == 0) {
+    close(fds[0]);
+    alarm(timeout_s);
+    std::pair<Result, std::string> r = body();
+    std::string msg;
+    auto put = [&](long v) { msg.append(reinterpret_cast<const char*>(&v), sizeof(v)); };
+    for (int t = 0; t < MAXT; t++) put(r.first.points[t]);
+    put(r.first.preemptions);
+    put(static_cast<long>(r.first.seg_used.size()));
+    for (long u : r.first.seg_used) put(u);
+    put(static_cast<long>(r.second.size()));
+    msg += r.second;
+    size_t off = 0;
+    while (off < msg.size()) {
+      ssize_t w = write(fds[1], msg.data() + off, msg.size() - off);
+      if (w <= 0) _exit(4);
+      off += static_cast<size_t>(w);
+    }
+    _exit(0);
+  }
+  close(fds[1]);
+  std::string msg;
+  char buf[4096];
+  for (;;) {
+    ssize_t n = read(fds[0], buf, sizeof(buf));
+    if (n > 0) msg.append(buf, static_cast<size_t>(n));
+    else if (n == 0 || errno != EINTR) break;
+  }
+  close(fds[0]);
+  int st = 0;
+  while (waitpid(pid, &st, 0) < 0 && errno == EINTR) {}
+  f.status = st;
+  size_t off = 0;
+  auto get = [&](long* v) { if (off + sizeof(long) > msg.size()) return false; memcpy(v, msg.data() + off, sizeof(long)); off += sizeof(long); return true; };
+  long v = 0, n = 0;
+  bool good = st == 0;
+  for (int t = 0; t < MAXT && good; t++) { good = get(&v); f.res.points[t] = v; }
+  if (good && (good = get(&v))) f.res.preemptions = static_cast<int>(v);
+  if (good && (good = get(&n))) for (long i = 0; i < n && good; i++) { good = get(&v); f.res.seg_used.push_back(v); }
+  if (good && (good = get(&n)) && off + static_cast<size_t>(n) <= msg.size()) f.payload = msg.substr(off, static_cast<size_t>(n));
+  else good = false;
+  f.ok = good;
+  return f;
+}
+
 inline std::string show(const std::vector<Seg>& segs) {
   std::string s = "[";
   for (size_t i = 0; i < segs.size(); i++) {
@@ -332,4 +426,52 @@ extern "C" VP_NOINSTR void __sanitizer_cov_trace_pc(void) {
   if (!vp::detail::g_in_job) return;
   vp::detail::point();
 }
+// Guards of function-local statics (Itanium C++ ABI: first byte non-zero = initialised).  These definitions replace
+// libstdc++'s for the whole binary, which runs on ONE OS thread (jobs are fibers), so no atomics are needed.
+extern "C" VP_NOINSTR int __cxa_guard_acquire(long long* g) {
+  using namespace vp::detail;
+  char* done = reinterpret_cast<char*>(g);
+  if (*done) return 0;
+  bool in_job = g_in_job;
+  g_in_job = false;
+  int me = in_job ? g_cur : -1;
+  for (;;) {
+    if (*done) {
+      g_in_job = in_job;
+      return 0;
+    }
+    int owner = guard_owner(g);
+    if (owner == -2) break;
+    if (owner == me || !in_job) {
+      fprintf(stderr, "vp: recursive initialisation of a function-local static\n");
+      abort();
+    }
+    // wait: disabled until the owner releases the guard
+    g_fib[me].blocked_on = g;
+    int next = pick_next(me);
+    if (next == g_n || next == me) {
+      fprintf(stderr, "vp: job blocked on a static-initialisation guard nobody can release\n");
+      abort();
+    }
+    switch_ctx(me, next, false);
+    g_fib[me].blocked_on = nullptr;
+  }
+  if (g_nguards >= 32) abort();
+  g_guards[g_nguards++] = {g, me};
+  g_in_job = in_job;
+  return 1;
+}
+static VP_NOINSTR void vp_guard_drop(long long* g) {
+  using namespace vp::detail;
+  for (int i = 0; i < g_nguards; i++)
+    if (g_guards[i].g == g) {
+      g_guards[i] = g_guards[--g_nguards];
+      return;
+    }
+}
+extern "C" VP_NOINSTR void __cxa_guard_release(long long* g) {
+  *reinterpret_cast<char*>(g) = 1;
+  vp_guard_drop(g);
+}
+extern "C" VP_NOINSTR void __cxa_guard_abort(long long* g) { vp_guard_drop(g); }
 #endif
